@@ -591,7 +591,6 @@ func (k Keeper) CancelLimitAuctionBid(ctx sdk.Context, bidder string, DebtTokenI
 		//updating fees in auction data
 		feeData, found := k.GetAuctionLimitBidFeeData(ctx, DebtTokenId)
 		if !found {
-			var feeData types.AuctionFeesCollectionFromLimitBidTx
 			feeData.AssetId = DebtTokenId
 			feeData.Amount = feesToBeCollected
 		} else {
@@ -629,6 +628,14 @@ func (k Keeper) WithdrawLimitAuctionBid(ctx sdk.Context, bidder string, Collater
 	}
 	auctionParams, _ := k.GetAuctionParams(ctx)
 
+	// a bidder can only take back the deposited asset, and at most the outstanding deposit
+	if amount.Denom != userLimitBid.DebtToken.Denom {
+		return types.ErrorUnknownDebtToken
+	}
+	if amount.Amount.GT(userLimitBid.DebtToken.Amount) {
+		return sdkerrors.Wrapf(sdkerrors.ErrInsufficientFunds, "withdraw amount %s exceeds the limit bid deposit %s", amount.Amount, userLimitBid.DebtToken.Amount)
+	}
+
 	if amount.Amount.Equal(userLimitBid.DebtToken.Amount) {
 		err := k.CancelLimitAuctionBid(ctx, bidder, DebtTokenId, CollateralTokenId, PremiumDiscount)
 		if err != nil {
@@ -649,7 +656,6 @@ func (k Keeper) WithdrawLimitAuctionBid(ctx sdk.Context, bidder string, Collater
 		//updating fees in auction data
 		feeData, found := k.GetAuctionLimitBidFeeData(ctx, DebtTokenId)
 		if !found {
-			var feeData types.AuctionFeesCollectionFromLimitBidTx
 			feeData.AssetId = DebtTokenId
 			feeData.Amount = feesToBeCollected
 		} else {
